@@ -312,7 +312,7 @@ def replay(ctx, case):
 def st_case(draw, infer=False):
     fmt = draw(C.st_fmt(max_w=16))
     sc = draw(st.sampled_from(SCALES))
-    bi = (draw(st.integers(-40, 40)), draw(st.sampled_from([0, 0, 1, 2, 3])))
+    bi = (draw(st.one_of(st.integers(-40, 40), st.sampled_from([100, -100, 127, -128, 200, -200, 300, -300, 1000]))), draw(st.sampled_from([0, 0, 1, 2, 3])))
     if draw(st.integers(0, 5)) == 0:
         bi = (0, 0)
     n = draw(st.integers(1, 5))
